@@ -1,3 +1,4 @@
 import Ymq.Props.C19
 #print axioms Ymq.C19.crt_symmetric
 #print axioms Ymq.C19.crt_sparse_symmetric
+#print axioms Ymq.C19.perm_sign
